@@ -20,7 +20,8 @@
 (***************************************************************************)
 EXTENDS Integers, Sequences, FiniteSets, TLC, Json
 
-CONSTANTS NC, UseLock, MaxOps, SchedLen, OpFilter    \* OpFilter: "all" | "vec" (only the slice parameter)
+CONSTANTS NC, UseLock, MaxOps, SchedLen, OpFilter,   \* OpFilter: "all" | "vec" (only the slice parameter) | "panic"
+          DeferUnlock   \* TRUE: the mutex is released when Artifact is left by a panic too (defer), as the code does
 
 Clients == 1..NC
 Params == 1..3
@@ -33,9 +34,13 @@ OpSet == {[op |-> "upd", p |-> 1, v |-> 2], [op |-> "upd", p |-> 2, v |-> 3], [o
           \* 13 makes the processors that read p1 fail; 1 is p2's DEFAULT (p2 starts at its flag value 7);
           \* updbad is a rejected update (no effect on the model state)
           [op |-> "upd", p |-> 1, v |-> 13], [op |-> "upd", p |-> 2, v |-> 1],
-          [op |-> "updbad", p |-> 3, v |-> 0], [op |-> "updbad", p |-> 1, v |-> 0]}
+          [op |-> "updbad", p |-> 3, v |-> 0], [op |-> "updbad", p |-> 1, v |-> 0],
+          \* 66 makes the processors that read p1 PANIC: Artifact is left by the panic, the caller recovers
+          [op |-> "upd", p |-> 1, v |-> 66]}
 
-Ops == IF OpFilter = "vec" THEN {o \in OpSet : o.p = 3} ELSE OpSet
+Ops == IF OpFilter = "vec" THEN {o \in OpSet : o.p = 3}
+       ELSE IF OpFilter = "panic" THEN {o \in OpSet : (o.op = "upd" /\ o.p = 1 /\ o.v \in {2, 66}) \/ (o.op \in {"art", "get"} /\ o.p \in {1, 2})}
+       ELSE OpSet
 
 VARIABLES pval, lock, pc, cur, k, acc, snap, progs, done, sched, torn
 vars == <<pval, lock, pc, cur, k, acc, snap, progs, done, sched, torn>>
@@ -76,7 +81,12 @@ StepIn(c) ==
        \/ /\ o.op = "upd" /\ pval' = [pval EXCEPT ![o.p] = o.v] /\ Finish(c)
           /\ UNCHANGED <<k, acc, torn>>
        \/ /\ o.op \in {"get", "updbad"} /\ Finish(c) /\ UNCHANGED <<pval, k, acc, torn>>
-       \/ /\ o.op = "art" /\ k[c] < Len(LeafOrder(o))
+       \/ /\ o.op = "art" /\ k[c] < Len(LeafOrder(o)) /\ LeafOrder(o)[k[c] + 1] = 1 /\ pval[1] = 66
+          \* the processor reading p1 panics: the call is over, nothing is handed out
+          /\ pc' = [pc EXCEPT ![c] = "idle"] /\ done' = [done EXCEPT ![c] = @ + 1]
+          /\ lock' = (IF lock = c /\ DeferUnlock THEN 0 ELSE lock)
+          /\ UNCHANGED <<pval, k, acc, torn>>
+       \/ /\ o.op = "art" /\ k[c] < Len(LeafOrder(o)) /\ ~(LeafOrder(o)[k[c] + 1] = 1 /\ pval[1] = 66)
           /\ LET rd == Append(acc[c], pval[LeafOrder(o)[k[c] + 1]]) IN
              /\ acc' = [acc EXCEPT ![c] = rd] /\ k' = [k EXCEPT ![c] = @ + 1]
              /\ IF k[c] + 1 = Len(LeafOrder(o))
@@ -104,6 +114,8 @@ Spec == Init /\ [][Next]_vars
 
 \* every completed artifact was computed from the single snapshot taken at lock acquisition
 Atomic == ~torn
+\* the mutex is only ever held by a client that is inside a call (a holder that left by a panic would block everyone)
+LockHeldByActive == lock # 0 => pc[lock] = "in"
 MutualExclusion == Cardinality({c \in Clients : pc[c] = "in"}) <= (IF UseLock THEN 1 ELSE NC)
 
 \* generator output: complete behaviours of the scheduler's length
